@@ -855,7 +855,12 @@ func ruleC01Line(c *Ctx) {
 	}
 	sanitised = hasCR && hasLF
 	if sanitised {
-		c.S.OK("R-C01-line", fnName(emit)+":sanitises", c.Pos(emit.Pos()), "the line emitter removes/replaces both CR and LF before writing")
+		// the sanitiser must be unconditional: the raw text parameter reaches the output only through it
+		if raw := rawTextReachesOutput(emit); raw != "" {
+			c.S.Bad("R-C01-line", fnName(emit)+":sanitises", c.Pos(emit.Pos()), "the line emitter has a sanitiser for CR/LF, but the raw text can reach the output without passing it ("+raw+"): a reply line can carry a line break taken from the request")
+			return
+		}
+		c.S.OK("R-C01-line", fnName(emit)+":sanitises", c.Pos(emit.Pos()), "the line emitter removes/replaces both CR and LF before writing, on every path")
 		return
 	}
 	// otherwise: request-derived text must not flow into a simple/error string
@@ -975,5 +980,228 @@ func ruleC01Line(c *Ctx) {
 	}
 	if n == 0 {
 		c.S.OK("R-C01-line", "no-request-bytes", c.Pos(emit.Pos()), "no simple/error string is built from request bytes")
+	}
+}
+
+// rawTextReachesOutput: a string parameter of the emitter flows into something that is written without passing a call
+// of the strings package / a Replacer (the sanitiser). Returns a description of the offending flow, "" if none.
+func rawTextReachesOutput(emit *ssa.Function) string {
+	isStr := func(t types.Type) bool {
+		b, ok := t.Underlying().(*types.Basic)
+		return ok && b.Kind() == types.String
+	}
+	raw := map[ssa.Value]bool{}
+	var work []ssa.Value
+	for _, p := range emit.Params {
+		if isStr(p.Type()) {
+			raw[p] = true
+			work = append(work, p)
+		}
+	}
+	for len(work) > 0 {
+		v := work[len(work)-1]
+		work = work[:len(work)-1]
+		for _, r := range referrers(v) {
+			switch u := r.(type) {
+			case *ssa.Phi, *ssa.Convert, *ssa.ChangeType, *ssa.MakeInterface, *ssa.Slice:
+				uv := u.(ssa.Value)
+				if !raw[uv] {
+					raw[uv] = true
+					work = append(work, uv)
+				}
+			case *ssa.BinOp:
+				if u.Op == token.ADD && !raw[u] {
+					raw[u] = true
+					work = append(work, u)
+				}
+			case *ssa.Store:
+				// element of a varargs array handed to a formatter/writer
+				if ia, ok := u.Addr.(*ssa.IndexAddr); ok && u.Val == v {
+					if _, isAl := ia.X.(*ssa.Alloc); isAl {
+						return "as an operand of a formatting call at " + emit.Prog.Fset.Position(u.Pos()).String()
+					}
+				}
+				// local variable cell
+				if al, ok := u.Addr.(*ssa.Alloc); ok && u.Val == v {
+					for _, r2 := range referrers(al) {
+						if ld, ok := r2.(*ssa.UnOp); ok && !raw[ld] {
+							raw[ld] = true
+							work = append(work, ld)
+						}
+					}
+				}
+			case ssa.CallInstruction:
+				name := fullCalleeName(u)
+				if u.Common().IsInvoke() {
+					name = u.Common().Method.Name()
+				}
+				if strings.HasPrefix(name, "strings.") || strings.HasPrefix(name, "(*strings.Replacer)") {
+					continue // the sanitiser (or a test such as strings.Contains): its result is not raw text
+				}
+				if strings.Contains(name, "Write") || strings.HasPrefix(name, "fmt.") {
+					return "written directly at " + emit.Prog.Fset.Position(u.Pos()).String()
+				}
+			}
+		}
+	}
+	return ""
+}
+
+const textFrame = "R-C01-frame: (bounds) every position the wire parser records in its own state (an int field of the parser set to a computed value) is computed under a dominating test against len(content) — a frame is never reported complete beyond the bytes that have arrived, whatever the split of the stream; (parse-after-read) the socket read does not sit in a loop that collects several reads before parsing: complete commands already in the buffer are parsed (and answered) before the connection blocks in the next read"
+
+func ruleC01Frame(c *Ctx) {
+	c.S.Rule("R-C01-frame", textFrame, 3)
+	a := c.cxn()
+	if len(a.errs) > 0 {
+		c.S.Undecided("R-C01-frame", "anchors", "-", strings.Join(a.errs, "; "))
+		return
+	}
+	nt := c.NamedType("respDeserializer")
+	if nt == nil {
+		c.S.Undecided("R-C01-frame", "parser-type", "-", "respDeserializer not found")
+		return
+	}
+	st, _ := nt.Underlying().(*types.Struct)
+	var fContent *types.Var
+	intFields := map[*types.Var]bool{}
+	for i := 0; st != nil && i < st.NumFields(); i++ {
+		f := st.Field(i)
+		switch u := f.Type().Underlying().(type) {
+		case *types.Slice:
+			if b, ok := u.Elem().Underlying().(*types.Basic); ok && b.Kind() == types.Byte {
+				fContent = f
+			}
+		case *types.Basic:
+			if u.Kind() == types.String && fContent == nil {
+				fContent = f
+			}
+			if u.Kind() == types.Int {
+				intFields[f] = true
+			}
+		}
+	}
+	if fContent == nil || len(intFields) == 0 {
+		c.S.Undecided("R-C01-frame", "parser-fields", "-", "the parser's content / position fields were not found")
+		return
+	}
+	// does v involve len(content)?
+	var involvesLen func(v ssa.Value, d int) bool
+	involvesLen = func(v ssa.Value, d int) bool {
+		if d > 8 || v == nil {
+			return false
+		}
+		switch x := v.(type) {
+		case *ssa.Call:
+			if b, ok := x.Call.Value.(*ssa.Builtin); ok && b.Name() == "len" {
+				_, f := loadedField(x.Call.Args[0])
+				return f == fContent
+			}
+		case *ssa.BinOp:
+			return involvesLen(x.X, d+1) || involvesLen(x.Y, d+1)
+		case *ssa.Convert:
+			return involvesLen(x.X, d+1)
+		case *ssa.Phi:
+			for _, e := range x.Edges {
+				if involvesLen(e, d+1) {
+					return true
+				}
+			}
+		case *ssa.UnOp:
+			if al, ok := x.X.(*ssa.Alloc); ok {
+				for _, r := range referrers(al) {
+					if s2, ok := r.(*ssa.Store); ok && s2.Addr == ssa.Value(al) && involvesLen(s2.Val, d+1) {
+						return true
+					}
+				}
+			}
+		}
+		return false
+	}
+	n := 0
+	for _, fn := range c.SrcFuncs() {
+		if fn.Signature.Recv() == nil || !c.isPkgType(fn.Signature.Recv().Type(), "respDeserializer") {
+			continue
+		}
+		k := 0
+		for _, in := range instrsOf(fn) {
+			s2, ok := in.(*ssa.Store)
+			if !ok {
+				continue
+			}
+			fa, ok := s2.Addr.(*ssa.FieldAddr)
+			if !ok || !intFields[fieldOf(fa)] {
+				continue
+			}
+			if _, isC := s2.Val.(*ssa.Const); isC {
+				continue
+			}
+			// copied from another position field of the parser (already checked when it was set)
+			if _, f := loadedField(s2.Val); f != nil && intFields[f] {
+				continue
+			}
+			// a counter (x = x + 1 on the same field) is not a position into the content
+			if bo, ok := s2.Val.(*ssa.BinOp); ok {
+				if _, f := loadedField(bo.X); f == fieldOf(fa) {
+					if _, isC := bo.Y.(*ssa.Const); isC {
+						continue
+					}
+				}
+			}
+			k++
+			n++
+			key := fmt.Sprintf("%s:%s#%d", fnName(fn), fieldOf(fa).Name(), k)
+			guarded := false
+			for _, b := range fn.Blocks {
+				ifi, ok := b.Instrs[len(b.Instrs)-1].(*ssa.If)
+				if !ok || !b.Dominates(s2.Block()) || b == s2.Block() {
+					continue
+				}
+				if involvesLen(ifi.Cond, 0) {
+					guarded = true
+				}
+			}
+			if guarded {
+				c.S.OK("R-C01-frame", key, c.Pos(s2.Pos()), "set under a dominating test against len(content)")
+			} else {
+				c.S.Bad("R-C01-frame", key, c.Pos(s2.Pos()), fmt.Sprintf("%s records a position in the parser (%s) that was not checked against the number of bytes that have arrived: a frame cut at the wrong place is reported complete and the connection loop slices beyond its buffer", fnName(fn), fieldOf(fa).Name()))
+			}
+		}
+	}
+	if n == 0 {
+		c.S.Undecided("R-C01-frame", "positions", "-", "no computed position store found in the parser")
+	}
+	// parse-after-read
+	for _, fn := range c.helperClosure(a.readFn, 3) {
+		for _, in := range instrsOf(fn) {
+			call, ok := in.(ssa.CallInstruction)
+			if !ok || !isConnMethod(call, "Read") {
+				continue
+			}
+			key := fnName(fn) + ":read-not-looped"
+			blk := in.Block()
+			if !blockInCycle(blk) {
+				c.S.OK("R-C01-frame", key, c.Pos(c.InstrPos(in)), "one socket read per visit of the wait state, followed by a parse")
+				continue
+			}
+			// the cycle through the read must contain a parse
+			parses := false
+			for _, b := range fn.Blocks {
+				if !(plainReachAvoid(blk, b, nil) && plainReachAvoid(b, blk, nil)) {
+					continue
+				}
+				for _, in2 := range b.Instrs {
+					if c2, ok := in2.(*ssa.Call); ok {
+						if g := c2.Call.StaticCallee(); g != nil && (g == a.parseFn || c.M.Reach(g)[a.parseFn]) {
+							parses = true
+						}
+					}
+				}
+			}
+			if parses {
+				c.S.OK("R-C01-frame", key, c.Pos(c.InstrPos(in)), "the read loop parses between reads")
+			} else {
+				c.S.Bad("R-C01-frame", key, c.Pos(c.InstrPos(in)), fmt.Sprintf("%s reads the socket in a loop without parsing in between: when a read happens to fill the buffer exactly, complete commands wait unanswered until the client sends more", fnName(fn)))
+			}
+		}
 	}
 }
